@@ -155,7 +155,8 @@ pub fn run(args: &[String]) {
         let mut parts = Vec::new();
         let mut model = Vec::new();
         for _ in 0..n {
-            let s = Gen { rng: &mut rng, sema_safe: false }.stmt(&mut env, 2);
+            // the empty statement is a statement kind of its own for C16
+            let s = if rng.below(8) == 0 { MStmt::Empty } else { Gen { rng: &mut rng, sema_safe: false }.stmt(&mut env, 2) };
             let (t, _) = print_program(std::slice::from_ref(&s), Layout { redundant_parens: false, trivia: 0 }, &mut rng);
             parts.push(t.trim_end().to_string());
             model.push(s);
@@ -165,17 +166,39 @@ pub fn run(args: &[String]) {
         let has_let = model.iter().any(|s| matches!(s, MStmt::Alias { .. }));
         let glue = parts.windows(2).any(|w| w[1].starts_with('-') && ends_with_assignment(&model[parts.iter().position(|p| p == &w[0]).unwrap_or(0)]));
         let trailing_scope = matches!(model.last(), Some(MStmt::Scope(_)));
+        // an empty statement directly after a statement handled by the top-level item routine, while the
+        // parser is still in its item loop (every earlier statement was an item as well)
+        let empty_after_item = {
+            let mut hit = false;
+            for i in 0..parts.len() {
+                if !starts_item(&parts[i]) {
+                    break;
+                }
+                if i + 1 < parts.len() && matches!(model[i + 1], MStmt::Empty) {
+                    hit = true;
+                    break;
+                }
+            }
+            hit
+        };
         let r = catch(std::panic::AssertUnwindSafe(|| compose_with(&parts, "\n")));
         let line = match r {
             Ok((Some(t), Some(b))) => {
+                // each failing side must be explained by a listed class
+                let top_known = has_let || glue || empty_after_item;
+                let block_known = has_let || glue || trailing_scope;
                 if t && b {
                     "ok".to_string()
-                } else if has_let {
-                    "KNOWN C16.let_context".to_string()
-                } else if glue {
-                    "KNOWN C16.assignment_glues_operator".to_string()
-                } else if t && trailing_scope {
-                    "KNOWN C16.trailing_anon_block".to_string()
+                } else if (t || top_known) && (b || block_known) {
+                    if has_let {
+                        "KNOWN C16.let_context".to_string()
+                    } else if glue {
+                        "KNOWN C16.assignment_glues_operator".to_string()
+                    } else if !t {
+                        "KNOWN C16.empty_stmt_after_item".to_string()
+                    } else {
+                        "KNOWN C16.trailing_anon_block".to_string()
+                    }
                 } else {
                     format!("FAIL C16: the concatenation does not parse to the statements of its parts (top level ok={t}, in block ok={b})")
                 }
@@ -186,6 +209,19 @@ pub fn run(args: &[String]) {
         writeln!(w, "accept\tR\t{n}\t{line} ;; {flat}").unwrap();
     }
     finish(w);
+}
+
+/// the dispatch condition of items.rs:opt_item on the first two tokens of a statement's text
+fn starts_item(text: &str) -> bool {
+    let t = text.trim_start();
+    let word: String = t.chars().take_while(|c| c.is_alphanumeric() || *c == '_').collect();
+    let rest = t[word.len()..].trim_start();
+    const TYPES: [&str; 10] = ["angle", "bit", "bool", "complex", "duration", "float", "int", "stretch", "uint", "array"];
+    const ITEMS: [&str; 23] = [
+        "qubit", "const", "gate", "break", "continue", "end", "if", "while", "for", "def", "defcal", "cal", "defcalgrammar", "extern",
+        "reset", "barrier", "OPENQASM", "include", "switch", "let", "delay", "input", "output",
+    ];
+    (TYPES.contains(&word.as_str()) && !rest.starts_with('(')) || ITEMS.contains(&word.as_str())
 }
 
 fn ends_with_assignment(s: &MStmt) -> bool {
